@@ -33,19 +33,19 @@ CHECKS = {
                 note='Unbounded liveness is not decidable by finite runs and is not claimed; progress clauses are bounded by one events_run call. EINTR is injected only into polls that would block.'),
     'C06': dict(level='exploration', ref='4/C06',
                 technique='runtime monitoring: byte-exact stream oracle at the syscall boundary (interposed recv/send/connect/getsockopt/accept/socket/close/poll/clock) with exactly-once counters, ASan+UBSan, real and pass-through pool',
-                text='80,000 (quick) / 1.6M (thorough) scenarios on the simulated kernel plus a real-kernel soak (640 / 9,600 socketpair cases with a forked scripted peer; timing-independent rules only): back-to-back read or write requests on one descriptor with scripted kernel answers (partial lengths, EAGAIN, EINTR, spurious readiness, EOF/errors at random offsets, stalls, cancellation at random steps), simultaneous read+write, connects over lists of 0..5 addresses from 7 behaviours with/without per-address timeout (timing checked in virtual time), accepts with scripted soft/hard errors. The end of an inbound stream is signalled by poll as POLLIN, as POLLHUP/POLLERR alone, or both; the caller\'s connect timeout struct is overwritten as soon as the call returns; 300,000 loop passes without completion or virtual time advancing are a violation (busy loop).',
+                text='80,000 (quick) / 1.6M (thorough) scenarios on the simulated kernel plus a real-kernel soak (640 / 9,600 socketpair cases with a forked scripted peer; timing-independent rules only): back-to-back read or write requests on one descriptor with scripted kernel answers (partial lengths, EAGAIN, EINTR, spurious readiness, EOF/errors at random offsets, stalls, cancellation at random steps), simultaneous read+write, connects over lists of 0..5 addresses from 7 behaviours with/without per-address timeout (timing checked in virtual time), accepts with scripted soft/hard errors. The end of an inbound stream is signalled by poll as POLLIN, as POLLHUP/POLLERR alone, or both; the caller\'s connect timeout struct is overwritten as soon as the call returns; 300,000 loop passes (or 10^6 polls) without completion or virtual time advancing are a violation (busy loop); descriptor 0 is an ordinary descriptor (free in one case of four, so that connected / accepted sockets get it).',
                 note='Kernel simulated for the main workload (the soak uses the real one); EAGAIN == EWOULDBLOCK on Linux; connect completions are generated >= 3 ms away from the timeout (ties not generated).'),
     'C07': dict(level='exploration', ref='4/C07',
                 technique='runtime monitoring: every byte visible through netbuf_read_peek compared with the peer\'s keyed stream, every byte accepted by the interposed send compared with the concatenation of the writes; exactly-once callbacks; ASan+UBSan',
-                text='16,000 (quick) / 300,000 (thorough) simulated-kernel histories (plus a real-kernel soak of 640 / 9,600 socketpair cases) of wait(k)/peek/consume(j)/cancel (consume also while a wait is outstanding on the network) with k from 1 to 20000 (growth and compaction of the 4096-byte buffer) and of reserve/consume/write with sizes 0..50000, crossed with segmentations, EAGAIN/EINTR patterns, EOF and failure offsets (incl. early ones that hit small uncoalesced buffers).',
+                text='16,000 (quick) / 300,000 (thorough) simulated-kernel histories (plus a real-kernel soak of 640 / 9,600 socketpair cases) of wait(k)/peek/consume(j)/cancel (consume also while a wait is outstanding on the network; impossible sizes up to SIZE_MAX must be refused) with k from 1 to 20000 (growth and compaction of the 4096-byte buffer) and of reserve/consume/write with sizes 0..50000, crossed with segmentations, EAGAIN/EINTR patterns, EOF and failure offsets (incl. early ones that hit small uncoalesced buffers); one case in eight puts a reader and a writer on one descriptor and tears one of them down while the other has an operation outstanding.',
                 note='Kernel simulated. After EOF/error is reported the reader is not used further.'),
     'C08': dict(level='exploration', ref='4/C08',
                 technique='runtime monitoring: ASan/UBSan + abort/assert/signal detection + callback counter + range checks on struct http_response made while reading every header string and body byte + live-block count of a tracking allocator + pending-after-close detector, over structured mutations of generated responses on the simulated kernel',
-                text='74,000 (quick) / 1.5M (thorough) (byte string, segmentation, limit, request, cancel step, transport mode) cases: 18 structured mutation families (incl. CR CR LF line ends, a hostile chunk-size line after a valid chunk with sizes within n of SIZE_MAX, odd Content-Length spellings, whitespace after an empty chunk-size line up to the end of the reader\'s buffer, bodies at limit-2..limit+2 in all framings, 64 KiB header blocks, 1xx floods), EOF at every offset of short responses, limits 0/1/2/around the body/large.',
+                text='74,000 (quick) / 1.5M (thorough) (byte string, segmentation, limit, request, cancel step, transport mode) cases: 18 structured mutation families (incl. CR CR LF line ends, a hostile chunk-size line after a valid chunk with sizes within n of SIZE_MAX, odd Content-Length spellings, whitespace after an empty chunk-size line up to the end of the reader\'s buffer, bodies at limit-2..limit+2 in all framings, 64 KiB header blocks, 1xx floods), EOF at every offset of short responses, limits 0/1/2/around the body/large. The request strings are freed as soon as http_request returns, the connection is descriptor 0 in a quarter of the cases, and every second shard has made an https_request (connection refused) earlier in the same process.',
                 note='Kernel simulated; byte strings are sampled from the mutation families, not all byte strings. Leak check = live-block count returns to its pre-request value (pass-through pool build).'),
     'C09': dict(level='exploration', ref='4/C09',
                 technique='runtime monitoring: generator-known (status, headers, body) and request bytes compared with the callback arguments and the bytes captured by the interposed send, ASan+UBSan, leak count',
-                text='40,000 (quick) / 500,000 (thorough) generated well-formed responses: Content-Length / chunked (1..50 chunks, extensions, hex case, leading zeros, trailers, chunks above 1 MiB in thorough) / read-to-EOF, 0..3 interim 1xx responses shorter and longer than the final header block, HEAD/204/304, OWS and colons in values, limits equal to and above the body, four segmentation modes (one cuts at, 1 and 2 bytes behind every chunk-size line and around every chunk\'s CRLF), request bodies with every method incl. HEAD, async connects, tiny send windows.',
+                text='40,000 (quick) / 500,000 (thorough) generated well-formed responses: Content-Length / chunked (1..50 chunks, extensions, hex case, leading zeros, trailers, chunks above 1 MiB in thorough) / read-to-EOF, 0..3 interim 1xx responses shorter and longer than the final header block, HEAD/204/304, OWS and colons in values, limits equal to and above the body, four segmentation modes (one cuts at, 1 and 2 bytes behind every chunk-size line and around every chunk\'s CRLF), request bodies with every method incl. HEAD, async connects, tiny send windows; request strings freed right after http_request returns, connection socket = descriptor 0 in a quarter of the cases, half the shards after an earlier https_request in the same process.',
                 note='Header blocks stay below the client\'s 64 KiB limit and chunk-size lines below its 256-byte limit (implementation limits, not part of the claim).'),
     'C10': dict(level='exploration', ref='4/C10',
                 technique='runtime monitoring under ASan+UBSan of the real crypto_dh.c with crypto_entropy_read substituted at link time (blinding chosen by the case); Python big-integer oracle pow(., 2^258+x, p) with p typed in from RFC 3526 and cross-checked against the RFC\'s pi formula',
@@ -65,7 +65,7 @@ CHECKS = {
                 note='Random sampling. Heap-internal checks rely on the LIBCPERCIVA_VERIF peek hook.'),
     'C14': dict(level='fault_enumeration', ref='4/C14',
                 technique='runtime fault injection with monitors: tracking allocator with failpoints under the library (--wrap), one forked child per allocation attempt k (fails once / fails from k on), model-equality and registration monitors, refuse-everything during cannot-fail operations, empty-live-set check after all atexit handlers, ASan+UBSan, simulated kernel for the I/O scenarios',
-                text='12 scenarios (array, queue, map, heap, timer queue, event registrations, network read/write, connect/accept, netbuf reader/writer, a complete HTTP request, helpers + AWS signing, object pool); EVERY allocation attempt of each executed scenario is failed in both modes (about 6,000 children quick, 45,000 thorough). Queue and map histories have growing and draining phases (compaction and shrinking under refusal); the event scenario registers up to 24 descriptors at once (growth of the per-descriptor arrays with live registrations); the HTTP scenario sees interim responses with and without header lines.',
+                text='13 scenarios (array, queue, map, heap, timer queue, event registrations, network read/write, connect/accept, netbuf reader/writer, a complete HTTP request, an https_request whose connections are refused, helpers + AWS signing, object pool); EVERY allocation attempt of each executed scenario is failed in both modes (about 6,000 children quick, 45,000 thorough). Queue and map histories have growing and draining phases (compaction and shrinking under refusal); the event scenario registers up to 24 descriptors at once (growth of the per-descriptor arrays with live registrations); the HTTP scenario sees interim responses with and without header lines.',
                 note='Exhaustive over the fault points of the executed scenarios, not over all scenarios. libc-internal allocations are not injectable. A request that never calls back after an event-loop error is taken to have been torn down by the library; the exit-time live-set check verifies it.'),
     'C15': dict(level='exploration', ref='4/C15',
                 technique='runtime monitoring under ASan+UBSan (-O1 and -O0 builds) with every input in a heap block of exactly its size and every output in a block of exactly the contract\'s size; range checks on results; per-input CPU-time watchdog; getaddrinfo interposed; thorough adds libFuzzer (clang) and valgrind memcheck',
@@ -85,7 +85,7 @@ CHECKS = {
                 note='optarg compared only where a program can observe it; warnings are counted, their text is not compared; where the header is silent the model follows standard getopt. A GETOPT_OPT label falling through into a GETOPT_OPTARG label is outside the documented usage and not generated.'),
     'C19': dict(level='exploration', ref='4/C19',
                 technique='runtime monitoring under ASan+UBSan with time() interposed: all four aws_sign_* functions; signature, credential scope, content hash and query string re-derived from the returned timestamp by an independent Python SigV4 that reproduces the published AWS worked examples',
-                text='48k signatures quick, 1.9M thorough over ids/regions/buckets/services/ops/paths of 0..200 unreserved characters, printable-ASCII secrets, bodies absent/empty/1 B..100 KiB, the int expiry range, clock instants 1970..2100; over half the cases use a clock that ticks on every call at a day, leap-day or year boundary.',
+                text='48k signatures quick, 1.9M thorough over ids/regions/buckets/services/ops/paths of 0..200 unreserved characters, printable-ASCII secrets, bodies absent/empty/1 B..100 KiB, the int expiry range, clock instants 1970..2100; over half the cases use a clock that ticks on every call at a day, leap-day or year boundary. The shards alternate between three builds of SHA-256 (SHA-NI, SSE2 only, portable C).',
                 note='Paths are absolute. The timestamp must be an instant the interposed clock returned, in UTC. Acceptance by the live AWS service is out of scope.'),
     'C20': dict(level='exploration', ref='4/C20',
                 technique='runtime monitoring of the real objects in -O2, -O1+ASan/UBSan and (thorough) -O2 -flto builds, with and without AES-NI: context bytes read back after every *_Final with the context at every legal alignment (heap and stack); direct sweep of insecure_memzero over every length x offset; a free-time hook (under malloc/free via --wrap, with an opt-in allocator mode handing out blocks that are 8 mod 16, and under OpenSSL via CRYPTO_set_mem_functions) searches every released block for independently derived secret images; allocation-fault enumeration of the DH operations (each OpenSSL allocation refused in turn)',
